@@ -31,15 +31,16 @@ type actRec struct {
 }
 
 type planCase struct {
-	PMethods float64 // share of payloads that are hand-declared types with methods
-	nStatic  int
-	r        *core.Rand
-	tab      *Table
-	tg       *TypeGen
-	vg       *ValGen
-	plan     *workflow.Plan
-	recs     map[*workflow.Action]*actRec
-	order    []*actRec
+	AllPlanGroups bool    // the four plan-level groups Pre/Cont/Post/Deferred are all present (needed by WithRemoveCompletedSequences)
+	PMethods      float64 // share of payloads that are hand-declared types with methods
+	nStatic       int
+	r             *core.Rand
+	tab           *Table
+	tg            *TypeGen
+	vg            *ValGen
+	plan          *workflow.Plan
+	recs          map[*workflow.Action]*actRec
+	order         []*actRec
 }
 
 func (pc *planCase) id() uuid.UUID {
@@ -155,10 +156,14 @@ func (pc *planCase) checks(path string, p float64) *workflow.Checks {
 func (pc *planCase) build(groupP float64) {
 	p := &workflow.Plan{ID: pc.id(), Name: "plan", Descr: "generated", State: pc.state(), SubmitTime: time.Date(2024, 5, 1, 9, 0, 0, 0, time.UTC), Meta: []byte("m")}
 	p.BypassChecks = pc.checks("plan.Bypass", groupP/2)
-	p.PreChecks = pc.checks("plan.Pre", groupP)
-	p.ContChecks = pc.checks("plan.Cont", groupP)
-	p.PostChecks = pc.checks("plan.Post", groupP)
-	p.DeferredChecks = pc.checks("plan.Deferred", groupP)
+	gp := groupP
+	if pc.AllPlanGroups {
+		gp = 1
+	}
+	p.PreChecks = pc.checks("plan.Pre", gp)
+	p.ContChecks = pc.checks("plan.Cont", gp)
+	p.PostChecks = pc.checks("plan.Post", gp)
+	p.DeferredChecks = pc.checks("plan.Deferred", gp)
 	for bi, nb := 0, 1+pc.r.Intn(2); bi < nb; bi++ {
 		bp := fmt.Sprintf("b%d", bi)
 		b := &workflow.Block{ID: pc.id(), Name: bp, Descr: "block", State: pc.state(), Concurrency: 1}
@@ -458,4 +463,114 @@ func (pc *planCase) renderCase(planTerm string) (string, renderObs) {
 	ob.NExpect = len(expect)
 	term := fmt.Sprintf("(CRender %s %s %s %s)", planTerm, core.B(ok), leafList(pc.tab, found), leafList(pc.tab, expect))
 	return term, ob
+}
+
+// ---------------------------------------------------------------- clone.Plan with WithRemoveCompletedSequences
+
+type keptObs struct {
+	KeepState bool     `json:"keep_state"`
+	Nil       bool     `json:"nil,omitempty"`
+	Panic     string   `json:"panic,omitempty"`
+	Kept      int      `json:"kept_actions"`
+	Dropped   int      `json:"dropped_actions"`
+	NilActs   int      `json:"nil_actions_in_result"`
+	Blocks    int      `json:"blocks_in_result"`
+	Leaked    []string `json:"leaked,omitempty"`
+	Missing   []string `json:"missing,omitempty"`
+	NSecret   int      `json:"n_secret"`
+}
+
+// removeCompletedCase clones the plan with WithRemoveCompletedSequences (and WithKeepState if ks). Which objects the
+// option drops is not C17's business: every request / response STILL in the result is paired with the original's (by
+// action name) and must be its scrubbed copy; nil actions left in the result are treated as absent.
+func (pc *planCase) removeCompletedCase(ks bool) (string, keptObs, bool) {
+	ob := keptObs{KeepState: ks}
+	opts := []clone.Option{clone.WithRemoveCompletedSequences()}
+	if ks {
+		opts = append(opts, clone.WithKeepState())
+	}
+	byName := map[string]*workflow.Action{}
+	for _, a := range actionsOfPlan(pc.plan) {
+		byName[a.Name] = a
+	}
+	var cl *workflow.Plan
+	func() {
+		defer func() {
+			if r := recover(); r != nil {
+				ob.Panic = fmt.Sprintf("%v\n%s", r, debug.Stack())
+			}
+		}()
+		cl = clone.Plan(context.Background(), pc.plan, opts...)
+	}()
+	if ob.Panic != "" {
+		return "", ob, false // the option's own (known, non-C17) problems: not judged here
+	}
+	if cl == nil {
+		ob.Nil = true
+		return "", ob, false
+	}
+	ob.Blocks = len(cl.Blocks)
+	js, err := json.Marshal(cl)
+	text := string(js)
+	if err != nil {
+		text = "json error: " + err.Error()
+	}
+	var pairs []string
+	var found, secret, plain []*Canary
+	keptSet := map[*workflow.Action]bool{}
+	for _, ca := range actionsOfPlan(cl) {
+		if ca == nil {
+			ob.NilActs++
+			continue
+		}
+		oa := byName[ca.Name]
+		if oa == nil {
+			continue
+		}
+		keptSet[oa] = true
+		ob.Kept++
+		pairs = append(pairs, core.Pair(AbstractAny(pc.tab, ca.Req), AbstractAny(pc.tab, oa.Req)))
+		for i, at := range ca.Attempts {
+			if i < len(oa.Attempts) {
+				pairs = append(pairs, core.Pair(AbstractAny(pc.tab, at.Resp), AbstractAny(pc.tab, oa.Attempts[i].Resp)))
+			}
+		}
+	}
+	for _, rec := range pc.order {
+		groups := [][]*Canary{rec.reqC}
+		present := []bool{keptSet[rec.a]}
+		for _, cs := range rec.respC {
+			groups = append(groups, cs)
+			present = append(present, keptSet[rec.a] && ks)
+		}
+		if !keptSet[rec.a] {
+			ob.Dropped++
+		}
+		for gi, cs := range groups {
+			for _, c := range cs {
+				if c.NoJSON {
+					continue
+				}
+				f := c.Found(text)
+				if f {
+					found = append(found, c)
+				}
+				switch {
+				case c.Secret:
+					secret = append(secret, c)
+					if f {
+						ob.Leaked = append(ob.Leaked, c.Pattern()+" @ "+c.Path)
+					}
+				case present[gi]:
+					plain = append(plain, c)
+					if !f {
+						ob.Missing = append(ob.Missing, c.Pattern()+" @ "+c.Path)
+					}
+				}
+			}
+		}
+	}
+	ob.NSecret = len(secret)
+	term := fmt.Sprintf("(CKept %s %s %s %s)", core.List(pairs), leafList(pc.tab, found), leafList(pc.tab, secret), leafList(pc.tab, plain))
+	return term, ob, true
 }
